@@ -51,10 +51,10 @@ open OlVerif.Sem in
     lambdas, comprehensions, ... - `W.eval`), any meaning of the primitive operations (binding a
     global name, attribute and item access, the in-place operators) and of the truth test of user
     values (`W.truthy`, which may run user code and may fail); a non-empty list is true, and taking
-    the truth value of an object again right away repeats the answer and changes nothing (`Lawful`); indexing a tuple built from
-    items gives the items (`LawfulSeq`).  For a module made of expression statements, `pass`, `global`, assignments
+    the truth value of an object again right away repeats the answer and changes nothing (`Lawful`); indexing, slicing and iterating
+    a tuple built from items give the items (`LawfulSeq`).  For a module made of expression statements, `pass`, `global`, assignments
     with any number of targets - names, attributes, subscripts, tuple / list patterns of such targets
-    without a starred item, nested to any depth -, augmented assignments on name / attribute / subscript targets
+    with at most one starred item, nested to any depth -, augmented assignments on name / attribute / subscript targets
     and `if` / `elif` / `else` over such statements at any nesting, whose expressions do not mention
     `__ol_` names: whenever the script runs from user state `u` to `u'`, the converted expression
     evaluates from `u` to `u'` - under both wrappers and both if-styles, with the helper variables it
@@ -98,6 +98,15 @@ def evalNames (u : List (String × PV)) : List Expr → Option (List PV)
       pure (v :: vs)
   | _ => none
 
+def decodeInt : Expr → Option Int
+  | .const (.int n) => some n
+  | .unaryOp .uSub (.const (.int n)) => some (-n)
+  | _ => none
+
+theorem decodeInt_intConstant (h : Int) : decodeInt (intConstant h) = some h := by
+  unfold intConstant
+  split <;> simp [decodeInt]
+
 def W : World (List (String × PV)) PV where
   eval := fun e u => match e with
     | .name x => (u.lookup x).map (·, u)
@@ -108,7 +117,7 @@ def W : World (List (String × PV)) PV where
   getattr := fun _ _ _ => none
   setattr := fun _ _ _ _ => none
   getitem := fun o i u => match o, i with
-    | .seq vs, .int k => if 0 ≤ k then (vs[k.toNat]?).map (·, u) else none
+    | .seq vs, .int k => (pyIndexG vs k).map (·, u)
     | _, _ => none
   setitem := fun _ _ _ _ => none
   iop := fun op a b u => match op, a, b with | .add, .int x, .int y => some (.int (x + y), u) | _, _, _ => none
@@ -118,7 +127,12 @@ def W : World (List (String × PV)) PV where
   truthy := fun v u => match v with | .int n => some (decide (n ≠ 0), u) | .seq vs => some (!vs.isEmpty, u)
   iter := fun v u => match v with | .seq vs => some (vs, u) | _ => none
   tupleOf := .seq
-  getslice := fun _ _ _ _ _ => none
+  getslice := fun o a b c u => match o, a, c with
+    | .seq vs, some (.const (.int lo)), none =>
+      (match b with
+       | none => some (.seq (pySliceG vs lo.toNat none), u)
+       | some e => (decodeInt e).map fun h => (PV.seq (pySliceG vs lo.toNat (some h)), u))
+    | _, _, _ => none
 
 theorem W_lawful : Lawful W where
   list := by intro v vs u; simp [W]
@@ -130,22 +144,28 @@ theorem W_lawfulSeq : LawfulSeq W where
   index := by
     intro items i v u h
     simp [W, h]
+  slice := by
+    intro items lo hi u
+    cases hi with
+    | none => simp [W]
+    | some h => simp [W, decodeInt_intConstant]
+  iter := by intro items u; rfl
 
-/-- `x = 1` / `a, b = x, x` / `if a: x += 2` / `else: pass` -/
+/-- `x = 1` / `a, *b = x, x, x` / `if a: x += 2` / `else: pass` -/
 def prog : List Stmt :=
   [.assign [.name "x"] (.const (.int 1)),
-   .assign [.tuple [.name "a", .name "b"]] (.tuple [.name "x", .name "x"]),
+   .assign [.tuple [.name "a", .starred (.name "b")]] (.tuple [.name "x", .name "x", .name "x"]),
    .if_ (.name "a") [.augAssign (.name "x") .add (.const (.int 2))] [.pass_]]
 
 theorem prog_simple : ∀ s ∈ prog, SimpleS s := fragment_decidable_sound prog (by decide)
 
-def final : List (String × PV) := [("x", .int 3), ("b", .int 1), ("a", .int 1), ("x", .int 1)]
+def final : List (String × PV) := [("x", .int 3), ("b", .seq [.int 1, .int 1]), ("a", .int 1), ("x", .int 1)]
 
 theorem prog_runs : ExecB W prog [] final :=
   .cons (.assign _ _ (.const _ _ _) (.cons (.name "x" _ _ (by decide)) (.nil _ _)))
     (.cons (.assign _ _ (.user _ _ (by decide) rfl)
-        (.cons (.tuple _ (items := [.int 1, .int 1]) rfl rfl
-          (.cons (.name "a" _ _ (by decide)) (.cons (.name "b" _ _ (by decide)) (.nil _)))) (.nil _ _)))
+        (.cons (.tuple _ (items := [.int 1, .int 1, .int 1]) (vals := [.int 1, .seq [.int 1, .int 1]]) rfl (by simp [pyValuesG, starIndex, Expr.isStarred, W])
+          (.cons (.name "a" _ _ (by decide)) (.cons (.starred _ (.name "b" _ _ (by decide))) (.nil _)))) (.nil _ _)))
       (.cons (.ifTrue _ _ _ (.user _ _ (by decide) rfl) rfl
         (.cons (.augName "x" .add _ (by decide) (.user _ _ (by decide) rfl) (.const _ _ _) rfl) (.nil _))) (.nil _)))
 
